@@ -327,7 +327,7 @@ class UnionConverter(Converter[t.Any]):
                 tb = e.__traceback__.tb_next  # type: ignore
                 tb = traceback.TracebackException(type(e), e, tb)
                 failed_children.append(WrongTypeError(self.expected(), val, tb))
-        return SumErrorNode(failed_children)
+        return SumErrorNode(failed_children, val)
 
 
 @dataclasses.dataclass(init=False)
